@@ -10,7 +10,7 @@ def run(ctx):
                           label="OrderIndependence in the design model (4 blocks, 2 Byzantine)")
     bftcommon.binding_demo(ctx)
     stats = []
-    stats += bftcommon.record_and_validate(ctx, "permute,latesibling,async-restart,posweights,posforks,stalepack,shortbest", 28 if q else 630, 36, "c04-orders")
+    stats += bftcommon.record_and_validate(ctx, "permute,latesibling,async-restart,posweights,posforks,transition,stalepack,shortbest", 32 if q else 640, 36, "c04-orders")
     stats += bftcommon.record_and_validate(ctx, "permute", 4 if q else 100, 90, "c04-long", seed_offset=5)
     # the start-up migration pass (bft.Engine.Resync): same blocks => same qualities and finality after it, at every cut
     bftcommon.resync_step(ctx, 8 if q else 40, 14 if q else 150, thorough=not q)
